@@ -38,6 +38,8 @@ struct Exec {
     aborted: usize,
     /// the tower could not be brought back after an abort: the rest of the scenario is skipped
     dead: bool,
+    in_poll: bool,
+    crashed_in_poll: bool,
 }
 
 impl Exec {
@@ -56,6 +58,22 @@ impl Exec {
 
     /// after an abort of the code under test: probe, then restart the tower on the same database
     fn recover(&mut self) {
+        let was_crash = std::mem::take(&mut self.rig.rec.lock().unwrap().last_abort) == "crash";
+        if was_crash {
+            // a simulated crash: everything in memory is gone; restart on the same data directory and catch up
+            self.crashed_in_poll = self.in_poll;
+            self.rig.crash();
+            let mut ok = self.rig.boot();
+            if !ok && std::mem::take(&mut self.rig.rec.lock().unwrap().last_abort) == "crash" {
+                self.rig.crash();
+                ok = self.rig.boot();
+            }
+            if !ok || !self.rig.poll() {
+                self.rig.crash();
+                self.dead = true;
+            }
+            return;
+        }
         self.aborted += 1;
         self.rig.probe();
         self.rig.crash();
@@ -70,9 +88,11 @@ impl Exec {
         if self.rig.tower.is_none() {
             return;
         }
+        self.in_poll = true;
         if !self.rig.poll() {
             self.recover();
         }
+        self.in_poll = false;
     }
 
     fn op(&mut self, op: &Value) {
@@ -82,9 +102,22 @@ impl Exec {
         let name = op["op"].as_str().unwrap();
         match name {
             "boot" => {
-                self.rig.boot();
+                if !self.rig.boot() && std::mem::take(&mut self.rig.rec.lock().unwrap().last_abort) == "crash" {
+                    self.rig.crash();
+                    self.rig.boot();
+                }
             }
             "crash" => self.rig.crash(),
+            "restart" => {
+                // a crash between actions followed by a restart and the catch-up poll; the final state is compared with
+                // the uninterrupted reference run
+                self.crashed_in_poll = true;
+                self.rig.crash();
+                if !self.rig.boot() || !self.rig.poll() {
+                    self.rig.crash();
+                    self.dead = true;
+                }
+            }
             "probe" => {
                 self.rig.probe();
             }
@@ -247,6 +280,8 @@ fn main() {
     let (cfg0, h00) = cfg_of(&script["cfg"]);
     let mut exec: Option<Exec> = None;
     let mut n_ops = 0usize;
+    let mut finals: std::collections::HashMap<usize, Value> = std::collections::HashMap::new();
+    let mut per_scenario: Vec<Value> = Vec::new();
     for (i, sc) in scenarios.iter().enumerate() {
         let (cfg, h0) = if sc.get("cfg").is_some() { cfg_of(&sc["cfg"]) } else { (cfg0, h00) };
         let db = wd.join(format!("tower_{i}.sql3"));
@@ -254,7 +289,7 @@ fn main() {
         let node = new_node(h0);
         match exec.as_mut() {
             None => {
-                exec = Some(Exec { rig: Rig::new(&args[3], db.clone(), cfg, node), aborted: 0, dead: false });
+                exec = Some(Exec { rig: Rig::new(&args[3], db.clone(), cfg, node), aborted: 0, dead: false, in_poll: false, crashed_in_poll: false });
             }
             Some(e) => {
                 e.rig.reset(db.clone(), cfg, node);
@@ -262,11 +297,33 @@ fn main() {
             }
         }
         let e = exec.as_mut().unwrap();
+        e.crashed_in_poll = false;
+        e.rig.rec.lock().unwrap().last_abort.clear();
         e.rig.rec.lock().unwrap().emit_plain(json!({"act": "Init", "name": sc["name"], "scenario": i}));
+        // crash enumeration: arm the k-th crash point (durable writes and node RPCs) of this scenario, if asked
+        teos_common::verif::arm(sc["crash_at"].as_u64().map(|k| k as usize));
         for op in sc["ops"].as_array().unwrap() {
             e.op(op);
             n_ops += 1;
         }
+        let (points, labels) = teos_common::verif::passed();
+        teos_common::verif::arm(None);
+        // the durable state at the end of the scenario; for a crashed variant whose crash hit a poll (or the bootstrap), the
+        // final state of the uninterrupted reference run of the same scenario is attached for comparison
+        {
+            let mut rec = e.rig.rec.lock().unwrap();
+            let fin = rec.project_db();
+            if let Some(r) = sc["ref"].as_u64() {
+                if e.crashed_in_poll && !e.dead {
+                    if let Some(reference) = finals.get(&(r as usize)) {
+                        rec.emit_plain(json!({"act": "RefFinal", "mine": fin, "reference": reference}));
+                    }
+                }
+            } else {
+                finals.insert(i, fin);
+            }
+        }
+        per_scenario.push(json!({"points": points, "labels": labels, "dead": e.dead}));
         // leave the scenario: drop the tower, remove its database
         e.rig.tower = None;
         e.rig.rec.lock().unwrap().comps = None;
@@ -281,5 +338,5 @@ fn main() {
     r.emit_plain(json!({"act": "end"}));
     let n = r.tw.n;
     r.tw.flush();
-    println!("{}", json!({"scenarios": scenarios.len(), "ops": n_ops, "events": n, "aborts": aborted}));
+    println!("{}", json!({"scenarios": scenarios.len(), "ops": n_ops, "events": n, "aborts": aborted, "per_scenario": per_scenario}));
 }
